@@ -8,6 +8,9 @@ import VhostModel.SpecDrv.Route
 import VhostModel.SpecDrv.Kern
 import VhostModel.SpecDrv.Mem
 import VhostModel.SpecDrv.Vq
+import VhostModel.SpecDrv.Proxy
+import VhostModel.SpecDrv.BeSrv
+import VhostModel.SpecDrv.Gpu
 /-! Spec driver: evaluates the property's own rule on a scenario (and, for behavioural families, on
 the observation the implementation produced). Imports nothing generated from /repo. -/
 
@@ -24,6 +27,9 @@ def dispatch (line : String) : String :=
   | "kern" :: _ => SpecDrv.Kern.run toks
   | "mem" :: _ => SpecDrv.Mem.run toks
   | "vq" :: _ => SpecDrv.Vq.run toks
+  | "proxy" :: _ => SpecDrv.Proxy.run toks
+  | "besrv" :: _ => SpecDrv.BeSrv.run toks
+  | "gpu" :: _ => SpecDrv.Gpu.run toks
   | _ => "bad-family"
 
 partial def loop (h : IO.FS.Stream) (out : IO.FS.Stream) : IO Unit := do
